@@ -173,10 +173,14 @@ def with_stack(spec, fn, *args):
 def gen_spec(rng, nprod=None, shape=None):
     """A random product graph of 4-9 product names.  Shapes: chain, diamond, tree (shared sub-trees),
     dag, twover (some product has two versions and somebody reaches both), cycle, stubby (dependencies
-    that do not resolve: undeclared product, undeclared version, bare name without a current version).
+    that do not resolve: undeclared product, undeclared version, bare name without a current version),
+    prefix (gen_prefix_spec: version names that are prefixes of one another).  Three graphs in ten of the other
+    shapes are respelled with such version names too (rename_versions).
     Returns the spec with spec["shape"] set."""
     shape = shape or rng.choice(["chain", "diamond", "tree", "dag", "dag", "twover", "twover", "cycle",
-                                 "cycle", "stubby", "mixed", "mixed"])
+                                 "cycle", "stubby", "mixed", "mixed", "prefix", "prefix"])
+    if shape == "prefix":
+        return gen_prefix_spec(rng)
     n = nprod or rng.randint(4, 9)
     names = ["p%d" % i for i in range(1, n + 1)]
     two = set()
@@ -285,7 +289,71 @@ def gen_spec(rng, nprod=None, shape=None):
             rng.shuffle(p["deps"])
     rng.shuffle(prods)                                  # declaration order is not graph order
     spec = {"products": prods, "shape": shape}
+    if rng.random() < 0.3:
+        rename_versions(spec, rng.choice(PREFIX_FAMILIES))
     return normalise(spec)
+
+
+# version spellings where one declared version is a proper prefix of another (1.0 / 1.0.1, 1 / 10, ...):
+# string keys and regular expressions over name:version must not confuse them
+PREFIX_FAMILIES = [
+    ("1.0", "1.0.1", "1.0.1.2", "1.0.19"),
+    ("1", "10", "101", "19"),
+    ("1.0", "1.0-rc1", "1.0+2", "1.0-rc19"),
+    ("2.1", "2.10", "2.1+hotfix", "2.19"),
+]
+
+
+def rename_versions(spec, family):
+    """respell the generator's versions 1, 2, 3 and the undeclared 9 with a prefix family (in place)"""
+    vmap = {"1": family[0], "2": family[1], "3": family[2], "9": family[3]}
+    for p in spec["products"]:
+        p["version"] = vmap.get(p["version"], p["version"])
+        for d in p["deps"]:
+            if d.get("version") is not None:
+                d["version"] = vmap.get(d["version"], d["version"])
+    spec["versions"] = list(family)
+    return spec
+
+
+def gen_prefix_spec(rng):
+    """Directed family: one library x declared in two or three versions whose names are prefixes of one another,
+    each version with its own users (directly and through an intermediate product), plus a user of two versions
+    and sometimes an undeclared version with the same prefix."""
+    fam = rng.choice(PREFIX_FAMILIES)
+    nver = rng.choice([2, 2, 3])
+    vers = list(fam[:nver])
+    prods = []
+    leaf = {"name": "base", "version": "1", "current": True, "deps": []}
+    prods.append(leaf)
+    cur = rng.choice(vers + [None])
+    for v in vers:
+        deps = [{"name": "base", "version": rng.choice([None, "1"]), "optional": False}] if rng.random() < 0.6 else []
+        prods.append({"name": "x", "version": v, "current": v == cur, "deps": deps})
+    nusers = rng.randint(2, 5)
+    users = []
+    for i in range(nusers):
+        v = vers[i % len(vers)] if i < len(vers) else rng.choice(vers + [None, fam[3]])
+        u = {"name": "u%d" % (i + 1), "version": rng.choice(["1", fam[0], fam[1]]), "current": True,
+             "deps": [{"name": "x", "version": v, "optional": rng.random() < 0.25}]}
+        if users and rng.random() < 0.5:
+            t = rng.choice(users)
+            u["deps"].append({"name": t["name"], "version": rng.choice([None, t["version"]]), "optional": rng.random() < 0.2})
+        if rng.random() < 0.3:
+            u["deps"].append({"name": "x", "version": rng.choice([w for w in vers + [fam[3]] if w != v]),
+                              "optional": rng.random() < 0.5})
+        if rng.random() < 0.3:
+            rng.shuffle(u["deps"])
+        users.append(u)
+    # sometimes a user itself exists in two prefix-related versions
+    if rng.random() < 0.4:
+        t = rng.choice(users)
+        other = fam[1] if t["version"] != fam[1] else fam[0]
+        users.append({"name": t["name"], "version": other, "current": False,
+                      "deps": [{"name": "x", "version": rng.choice(vers), "optional": False}]})
+    prods += users
+    rng.shuffle(prods)
+    return normalise({"products": prods, "shape": "prefix", "versions": list(fam)})
 
 
 # ------------------------------------------------------------------------ running many stacks in parallel
